@@ -172,3 +172,54 @@ Proof.
   exists z2. split; [exact H2|]. intros k.
   pose proof (look_dels_fd _ _ _ H2 k) as G. rewrite F in G. inversion G; reflexivity.
 Qed.
+
+(* ---- additions are idempotent: only the SET of added records matters ---- *)
+Lemma rr_eq_dec : forall a b : rr, {a = b} + {a <> b}.
+Proof. decide equality; apply Z.eq_dec. Qed.
+
+Lemma ins_idem : forall d l, ssorted l -> ins d (ins d l) = ins d l.
+Proof.
+  intros d l Hl. apply ssorted_ext; try (repeat apply ins_sorted; exact Hl).
+  intros x. rewrite !ins_In. tauto.
+Qed.
+
+Lemma tmin_idem : forall a b, tmin a (tmin a b) = tmin a b.
+Proof.
+  intros a b. unfold tmin. destruct (a <? b) eqn:E; rewrite ?E; [apply min_same|reflexivity].
+Qed.
+
+Lemma add1_idem : forall e r, wf_e e -> add1o (add1o e r) r = add1o e r.
+Proof.
+  intros e r He. unfold add1o. f_equal. destruct e as [[t0 S0]|]; cbn [add1 wf_e] in *.
+  - fold (tmin (r_ttl r) t0). fold (tmin (r_ttl r) (tmin (r_ttl r) t0)). rewrite tmin_idem.
+    f_equal. apply ins_idem, He.
+  - rewrite min_same. f_equal. apply (ins_idem (r_data r) []). constructor.
+Qed.
+
+Lemma fa_dup_head : forall k e r x, wf_e e -> In r x -> fa k e (r :: x) = fa k e x.
+Proof.
+  intros k e r x He Hin. apply in_split in Hin. destruct Hin as [l1 [l2 ->]].
+  rewrite (fa_perm k (r :: l1 ++ r :: l2) (r :: r :: l1 ++ l2)) by
+    (apply perm_skip, Permutation_sym, Permutation_middle || exact He).
+  rewrite (fa_perm k (l1 ++ r :: l2) (r :: l1 ++ l2)) by
+    (apply Permutation_sym, Permutation_middle || exact He).
+  rewrite !fa_cons. destruct (key_eqb (rkey r) k); [|reflexivity].
+  rewrite add1_idem by exact He. reflexivity.
+Qed.
+
+Lemma fa_nodup : forall k x e, wf_e e -> fa k e (nodup rr_eq_dec x) = fa k e x.
+Proof.
+  intros k x. induction x as [|r x IH]; intros e He; cbn [nodup]; [reflexivity|].
+  destruct (in_dec rr_eq_dec r x) as [Hin|Hnin].
+  - rewrite IH by exact He. symmetry. apply fa_dup_head; assumption.
+  - rewrite !fa_cons. apply IH. destruct (key_eqb (rkey r) k); [apply wf_e_add1o|]; exact He.
+Qed.
+
+Lemma adds_same_set : forall x y z, same_set x y -> zsorted z -> zeq (adds z x) (adds z y).
+Proof.
+  intros x y z H Hz k. rewrite !look_adds_fa.
+  rewrite <- (fa_nodup k x) by apply Hz. rewrite <- (fa_nodup k y) by apply Hz.
+  apply fa_perm; [|apply Hz].
+  apply NoDup_Permutation; try apply NoDup_nodup.
+  intros r. rewrite !nodup_In. apply H.
+Qed.
